@@ -78,6 +78,12 @@ def case(draw):
     alts = [[draw(st.integers(0, 400)), draw(st.sampled_from(["adjacent", "grouped"]))] for _ in range(draw(st.integers(0, 2)))]
     return dict(
         part="layout", desc=desc, edits=edits, alts=alts, het=het,
+        # column content that carries no coordinates: segment id (73-76), zero occupancy, odd B factors,
+        # wrong/absent element symbols; a standard residue written with HETATM records
+        segid=draw(st.sampled_from([None, None, "SEG1", "A", "PROA"])),
+        occ0=draw(st.sampled_from([False, False, True])),
+        elem=draw(st.sampled_from(["right", "right", "blank", "wrong", "lower"])),
+        het_res=draw(st.sampled_from([None, None, None, 0, 1, 2])),
         crlf=draw(st.sampled_from([False, False, True])),
         truncate=draw(st.sampled_from([None, None, 54, 60, 66, 78])),
         trailing=draw(st.sampled_from([0, 0, 3])),
@@ -125,8 +131,20 @@ def render(case):
     serial = case.get("serial0", 1)
     for i, r in enumerate(recs):
         def fmt(alt, dx=0.0, occ=1.0):
-            return build.fmt_atom(serial, r["name"], r["resn"], r["chain"], r["seq"], r["icode"],
-                                  r["xyz"] + np.array([dx, 0.0, dx]), rec=r["rec"], alt=alt, occ=occ)  # fmt: skip
+            rec_ = r["rec"]
+            if case.get("het_res") is not None and r["group"][0] == "chain" and r["group"][2] == case["het_res"]:
+                rec_ = "HETATM"  # e.g. a modified / re-refined standard residue
+            if case.get("occ0") and (i + serial) % 3 == 0:
+                occ = 0.0
+            ln = build.fmt_atom(serial, r["name"], r["resn"], r["chain"], r["seq"], r["icode"],
+                                r["xyz"] + np.array([dx, 0.0, dx]), rec=rec_, alt=alt, occ=occ, b=(7.5 * i) % 100.0)  # fmt: skip
+            el = case.get("elem", "right")
+            if el != "right":
+                sym = {"blank": "  ", "wrong": " X", "lower": ln[76:78].lower()}[el]
+                ln = ln[:76] + sym
+            if case.get("segid"):
+                ln = ln[:72] + case["segid"].ljust(4) + ln[76:]
+            return ln
 
         if i in alt_at:
             lines.append(("atom", fmt("A", 0.0, 0.6), i))
@@ -258,7 +276,9 @@ def check(case):
     res.label(f"mode={mode}", f"models={case['models']}", "crlf" if case["crlf"] else "lf",
               "alt" if has_alt else "no-alt", "icode" if has_icode else "no-icode",
               f"edits-before={min(n_before, 3)}", *sorted({k for _p, k in case["edits"]}),
-              *([f"het-alt={het['alt']}"] if het else []),
+              *([f"het-alt={het['alt']}"] if het else []), *(["segid"] if case.get("segid") else []),
+              *(["occupancy-0"] if case.get("occ0") else []), f"element={case.get('elem', 'right')}",
+              *(["hetatm-standard-residue"] if case.get("het_res") is not None else []),
               *("na-old-names" if x.get("stars") else "na" for x in case["desc"].get("na", [])))  # fmt: skip
     if not r.ok:
         if mode.startswith("clean"):
